@@ -226,6 +226,12 @@ def serialize(ob):
         syms = [array_symbols(h) if q else None for h, q in zip(ob.hyps, quant)]
         cur = array_symbols(ob.goal)
         prev_n = -1
+        # slice 0: the quantified hypotheses that speak only about heap fields / ghost views the goal itself mentions
+        pick0 = [i for i, (q, sy) in enumerate(zip(quant, syms)) if q and sy <= cur]
+        if pick0 and len(pick0) < nq:
+            keep0 = set(pick0)
+            slices.append(to_smt2([h for i, h in enumerate(ob.hyps) if (not quant[i]) or i in keep0], ob.goal))
+            prev_n = len(pick0)
         for level in range(2):
             pick = [i for i, (q, sy) in enumerate(zip(quant, syms)) if q and (sy & cur)]
             if len(pick) == nq or len(pick) == prev_n:
@@ -269,18 +275,18 @@ def _pipeline(ob, timeout_ms, tac, retry_ms, use_cvc5):
         r, model1, _, _ = _solve(ob.smt2_qf, timeout_ms, tac, True)
         if r == "unsat":
             return "proved", "z3", time.time() - t0, None, ""
-        for sm in ob.slices:
-            for seed in (0, 1):
-                r, _, _, _ = _solve(sm, min(timeout_ms, 4000), tac, False, seed)
-                if r == "unsat":
-                    return "proved", "z3", time.time() - t0, None, ""
-                if r == "sat":
-                    break
+    for sm in ob.slices:
+        for seed in (0, 1):
+            r, _, _, _ = _solve(sm, min(timeout_ms, 4000), tac, False, seed)
+            if r == "unsat":
+                return "proved", "z3", time.time() - t0, None, ""
+            if r == "sat":
+                break
     # quantifier instantiation is sensitive to the search order: a small portfolio of seeds with short budgets is more
     # robust than one long run (a proof, when found, is found in milliseconds).  With a candidate counter-model from the
     # quantifier-free query the full query gets a short budget.
     budget = min(timeout_ms, 10000) if model1 is not None else timeout_ms
-    plan = [(0, budget / 4.0), (1, budget / 4.0), (2, budget / 4.0), (3, budget / 4.0)] if ob.smt2_qf is not None else [(0, budget)]
+    plan = [(0, budget / 4.0), (1, budget / 4.0), (2, budget / 4.0), (3, budget / 4.0)] if (ob.smt2_qf is not None or ob.slices) else [(0, budget)]
     r, model, reason = "unknown", None, ""
     for seed, tmo in plan:
         r, model, _, reason = _solve(ob.smt2, max(tmo, 1000), tac, True, seed)
